@@ -41,6 +41,9 @@ fn anomaly_findings(obs: &Obs, utf8: bool) -> Vec<Finding> {
     for a in &obs.anomalies {
         if a.starts_with("panic") {
             f.push(fnd("C05", 0, format!("lexer panicked: {a}")));
+        } else if a.contains("out of range") {
+            // slice() / remainder() on this span would form a slice outside the source (not called by the harness)
+            f.push(fnd("C05", 0, format!("{a}: slice() and remainder() would form a slice with out-of-range bounds")));
         } else if a.contains("char boundaries") || (utf8 && (a.contains("slice()") || a.contains("remainder()"))) {
             f.push(fnd("C04", 0, a.clone()));
         } else {
@@ -570,6 +573,14 @@ pub fn stress_inputs(sd: &SubjectDef, idx_in_family: usize, big: usize, quadrati
             u.extend(rep("yx", quadratic / 2));
             v.push(("almost matching 2-cycle (errors)".into(), u));
         }
+        ("stress", 3) => {
+            v.push(("root loop running to the end of the input".into(), rep(" ", big)));
+            v.push(("root loop before every token".into(), rep("   ab  12 ;", big / 11)));
+            let mut t = rep(" ", quadratic);
+            t.push(b'?');
+            v.push(("root loop ending in an error".into(), t));
+            v.push(("root loop, short".into(), b"  ".to_vec()));
+        }
         ("stress", 1) => {
             v.push(("(a*)*b without the b".into(), rep("a", quadratic)));
             let mut t = rep("a", big);
@@ -641,7 +652,7 @@ fn rule_for(prop: &str) -> String {
         "C07" => "every split point of every input: partial items are a leading run of the one-shot items of the input and of 6 alternative continuations, empty span at None, rest re-lexes to the remaining items, chunked history reproduces the stream (same build); non-trivial = splits strictly inside an item/skip or where the partial lexer stopped before the split",
         "C11" => "subpattern family on compiled lexers: definitions with (?&name) references (nested, str and byte-string subpatterns, str and byte mode); oracle = reference lexer built from the AST-inlined patterns; non-trivial = attempts with >= 2 matching patterns / several match ends",
         "C12" => "str-mode definitions compiled twice (utf8 default / utf8 = false) in one module, same valid UTF-8 input to both; oracle: Ok tokens with spans equal and the sets of bytes covered by errors equal (twin against twin); non-trivial = distinct (definition,input) with a multi-byte char inside or next to an error",
-        "C13" => "callbacks family: every pattern carries a callback (return type from the whole documented table, decision = pure function of salt and matched text, bump of 0-2 chars, 4 attachment forms, optional error callback, custom error type with From); oracle: model driven by the callback-free twin T0 (one unit variant per leaf) restarted after every item at the position the model computes, decisions applied per the documented table: items, spans, payloads, error codes, callback log (exactly one entry per winning match with span/slice of the match, bumped bytes) and error-callback log must be equal; plus the T1 twin where always-Skip callbacks are replaced by skip patterns; non-trivial = distinct (definition,input) with a non-Emit decision, a bump > 0, or a Skip followed by a restart",
+        "C13" => "callbacks family: every pattern carries a callback (return type from the whole documented table, decision = pure function of salt and matched text, bump of 0-2 chars, 6 attachment forms (function path or inline closure, positional or callback =, closure bodies that start with a parenthesised group or are a block), optional error callback, custom error type with From); oracle: model driven by the callback-free twin T0 (one unit variant per leaf) restarted after every item at the position the model computes, decisions applied per the documented table: items, spans, payloads, error codes, callback log (exactly one entry per winning match with span/slice of the match, bumped bytes) and error-callback log must be equal; plus the T1 twin where always-Skip callbacks are replaced by skip patterns; non-trivial = distinct (definition,input) with a non-Emit decision, a bump > 0, or a Skip followed by a restart",
         "C20" => "oracle on the read trace (hook): offsets non-decreasing per attempt, reads <= 4*(examined+1)+16, first read at the attempt start; non-trivial = attempts examining >= 16 bytes",
         _ => "",
     };
@@ -655,6 +666,10 @@ fn subject_replay(prop: &str, cfg: &BuildCfg, idx: usize, sd: &SubjectDef, rust:
 
 pub fn main(subjects: &[&'static dyn Subject], defs_json: &str, cfg: BuildCfg) -> i32 {
     let args = Args::parse();
+    if args.prop == "MIRILEX" {
+        // under Miri: no defs.json parsing, no model code, just lexing
+        return mirilex(subjects, &args);
+    }
     let set: SubjectSet = serde_json::from_str(defs_json).expect("defs.json");
     assert_eq!(set.defs.len(), subjects.len(), "subject table and defs.json disagree");
     let prop = args.prop.clone();
@@ -782,6 +797,41 @@ fn dump(subjects: &[&'static dyn Subject], set: &SubjectSet, args: &Args) -> i32
             }
         }
     }
+    0
+}
+
+/// Interpreter-as-sanitizer stage (C05): re-lexes cases of a native DUMP file on exactly sized heap copies and writes the
+/// records in the same format. Meant to run under Miri (`cargo miri run`), which aborts on the first out-of-bounds pointer
+/// offset, out-of-range `get_unchecked`, or read of bytes outside the allocation; the line printed to stderr before each
+/// case identifies the input. `--stride k --phase j` selects every k-th record, `--max-len` bounds the input length.
+fn mirilex(subjects: &[&'static dyn Subject], args: &Args) -> i32 {
+    use std::io::BufRead;
+    let inp = args.extra.get("in").expect("--in");
+    let out = args.extra.get("out").expect("--out");
+    let stride = args.extra_u64("stride", 1).max(1) as usize;
+    let phase = args.extra_u64("phase", 0) as usize;
+    let max_len = args.extra_u64("max-len", 64) as usize;
+    let r = std::io::BufReader::new(std::fs::File::open(inp).expect("open --in"));
+    let mut w = std::io::BufWriter::new(std::fs::File::create(out).expect("create --out"));
+    let mut n = 0usize;
+    for line in r.lines() {
+        let line = line.expect("read");
+        let mut it = line.splitn(4, ' ');
+        let (Some(idx), Some(hx), Some(mode)) = (it.next(), it.next(), it.next()) else { continue };
+        if hx.len() / 2 > max_len {
+            continue;
+        }
+        n += 1;
+        if n % stride != phase % stride {
+            continue;
+        }
+        let idx: usize = idx.parse().expect("index");
+        eprintln!("CASE {idx} {hx} {mode}");
+        let exact: Box<[u8]> = unhex(hx).into_boxed_slice();
+        let o = lex_catch(subjects[idx], 0, &exact, Mode { partial: mode == "1", ..Mode::default() });
+        writeln!(w, "{idx} {hx} {mode} {}", serde_json::to_string(&o).unwrap()).unwrap();
+    }
+    w.flush().unwrap();
     0
 }
 
@@ -982,15 +1032,32 @@ fn start_watchdog(prop: &str, set: &SubjectSet, args: &Args, cfg: &BuildCfg) {
                 std::thread::sleep(std::time::Duration::from_millis(200));
             }
             let _ = child.kill();
-            if !finished && prop == "C03" {
+            // C03 owns termination on the core family. On the other families (callbacks, subpattern, stress) no C03 run
+            // would see the hang; there the oracle of the running property prescribes a finite stream which the lexer
+            // does not deliver, so the hang is that property's violation.
+            let owned: Option<&'static str> = match prop.as_str() {
+                "C03" => Some("C03"),
+                "C11" if defs[idx].family != "core" => Some("C11"),
+                "C12" if defs[idx].family != "core" => Some("C12"),
+                "C13" if defs[idx].family != "core" => Some("C13"),
+                "C20" if defs[idx].family != "core" => Some("C20"),
+                "C01" if defs[idx].family != "core" => Some("C01"),
+                _ => None,
+            };
+            if let (false, Some(pid)) = (finished, owned) {
                 let sd = &defs[idx];
-                let f = vec![Finding { property: "C03", at: 0, what: format!("lexing {} does not terminate: no item was returned within 30 s, confirmed in a fresh process (20 s)", show(&input)) }];
+                let f = vec![Finding { property: pid, at: 0, what: format!("lexing {} does not terminate: no item was returned within 30 s, confirmed in a fresh process (20 s)", show(&input)) }];
                 let rust = model::prep::render(&sd.def);
-                let mut doc = subject_replay("C03", &cfg, idx, sd, &rust, &input, &f);
+                let mut doc = subject_replay(pid, &cfg, idx, sd, &rust, &input, &f);
                 doc["hang"] = json!(true);
                 doc["partial"] = json!(partial);
-                report_violation("C03", &replay_dir, &doc);
+                report_violation(pid, &replay_dir, &doc);
                 std::process::exit(1);
+            }
+            if !finished && prop == "DUMP" {
+                // build-against-build differential: the check script asks the other configuration whether it terminates
+                println!("HANG {idx} {} {}", hex(&input), if partial { 1 } else { 0 });
+                std::process::exit(3);
             }
             eprintln!("watchdog: no progress for 30 s on subject {idx} input {} (hang confirmed: {}); property {prop} is not the termination property: inconclusive", show(&input), !finished);
             std::process::exit(2);
